@@ -67,6 +67,9 @@ def descr(prog, t):
             inner = t[2][0]
             if nm in ("Map::keys", "Map::range_raw", "Map::keys_raw"):
                 nm = "Map::range"  # the same scan as far as "is there a first / last entry" goes
+            if nm in ("Map::last", "Map::first"):
+                # map.last(storage) is range(.., Descending).next(): the same "is there an entry" question
+                return "Iterator::next(Map::range(%s))" % ns_of(prog, t[2][0])
             if inner[0] == "call" and inner[1].startswith("cw_storage_plus::"):
                 return "%s(%s)" % (nm, descr(prog, inner))
             return "%s(%s)" % (nm, ns_of(prog, t[2][0]))
